@@ -15,8 +15,8 @@ from tools.translators import gen_c17
 PROP = 'C17'
 FINDING = 'F-OPTGUARD-KEYSET'
 FINDING_PATH = 'F-OPTGUARD-MSG-PATH'      # fixed (b33cf26): a reproducing witness is a VIOLATION
-FINDING_TRI = 'F-OPTGUARD-TRIGRAPH'
-# directory names that are hostile to a C string literal; [0] must build since b33cf26, the others contain trigraphs
+FINDING_TRI = 'F-OPTGUARD-TRIGRAPH'        # fixed (f2f61d1): a reproducing witness is a VIOLATION
+# directory names that are hostile to a C string literal; all must build (b33cf26, f2f61d1); [1:] contain trigraphs
 HOSTILE_DIRS = ['we"ird\\dir', 'a??/u', 'x??/"y', "q??'r??)s"]
 # additional type shapes (the core four are always compiled; `always` ones too; the rest rotates by seed in the quick tier)
 EXTRA_ALWAYS = {
